@@ -14,6 +14,8 @@
 //!   lay_in.txt                      input lines for the extracted layout checker
 //!                                   (`L <flags>;<raw tokens>;<layout tokens>`)
 //!   lay_cases.txt                   what each layout line is
+//!   laym_in.txt / laym_expected.txt input of the layout MODEL (`M (tk code line col lo hi)*`) and the
+//!                                   real layout output (`ok|err (code lo hi)*`); laym_cases.txt
 //!   stats.json
 mod ast;
 mod print;
@@ -104,7 +106,7 @@ fn shrink(prog: &ast::E, style: Style, ops: &[ast::Op], first: (String, String, 
     let mut witness = first;
     let mut budget = 3000;
     'outer: loop {
-        let mut cands = ast::reductions(&cur);
+        let mut cands: Vec<ast::E> = ast::reductions(&cur).into_iter().filter(|c| ast::valid(c, true)).collect();
         cands.sort_by_key(|c| c.size());
         for c in cands {
             if budget == 0 {
@@ -198,8 +200,8 @@ fn main() {
 
     let dump = args.rest.iter().any(|a| a == "dump");
     let mut rng = Rng::new(args.seed);
-    let n_programs: usize = args.extra.get("n").and_then(|s| s.parse().ok()).unwrap_or(if args.thorough() { 30000 } else { 3500 });
-    let max_size: usize = args.extra.get("size").and_then(|s| s.parse().ok()).unwrap_or(if args.thorough() { 14 } else { 9 });
+    let n_programs: usize = args.extra.get("n").and_then(|s| s.parse().ok()).unwrap_or(if args.thorough() { 60000 } else { 12000 });
+    let max_size: usize = args.extra.get("size").and_then(|s| s.parse().ok()).unwrap_or(if args.thorough() { 14 } else { 10 });
 
     let mut f_exp = args.file("rt_expected.txt");
     let mut f_impl = args.file("rt_impl.txt");
@@ -209,6 +211,10 @@ fn main() {
     let mut f_spanc = args.file("span_cases.txt");
     let mut f_lay = args.file("lay_in.txt");
     let mut f_layc = args.file("lay_cases.txt");
+    let mut f_laym = args.file("laym_in.txt");
+    let mut f_layme = args.file("laym_expected.txt");
+    let mut f_laymc = args.file("laym_cases.txt");
+    let mut n_laym = 0u64;
     let mut hist = Hist::default();
     let mut distinct = std::collections::HashSet::new();
     let mut n_rt = 0u64;
@@ -220,8 +226,34 @@ fn main() {
     let mut n_lay_clean = 0u64;
     let mut n_virtual = 0u64;
     let mut rt_mismatch = 0u64;
+    let mut n_corpus = 0u64;
 
-    // ---- corpus: hand-picked sources (corpus/C08/*.glu), only spans + layout ----
+    // ---- corpus: hand-picked sources with their expected tree (corpus/C08/<name>.glu + <name>.tree), run first ----
+    let corpus_dir = concat!(env!("CARGO_MANIFEST_DIR"), "/../corpus/C08");
+    for f in glu_files(corpus_dir) {
+        let (src, tree) = match (std::fs::read_to_string(&f), std::fs::read_to_string(f.with_extension("tree"))) {
+            (Ok(s), Ok(t)) => (s, t.trim().to_string()),
+            _ => continue,
+        };
+        let stem = f.file_stem().and_then(|s| s.to_str()).unwrap_or("?").to_string();
+        let (line, _, _) = run_impl(&src);
+        if line != tree {
+            rt_mismatch += 1;
+            writeln!(
+                f_fail,
+                "{}",
+                serde_json::json!({"key": format!("roundtrip:corpus:{}", stem), "style": "corpus", "source": src, "expected": tree,
+                                   "observed": line, "original_source": src, "case": n_rt})
+            )
+            .unwrap();
+        }
+        writeln!(f_exp, "{}", tree).unwrap();
+        writeln!(f_impl, "{}", line).unwrap();
+        writeln!(f_cases, "corpus\t{}\t{}", stem, serde_json::to_string(&src).unwrap()).unwrap();
+        n_rt += 1;
+        n_corpus += 1;
+        hist.add("style:corpus");
+    }
     // ---- generated programs ----
     for i in 0..n_programs {
         let size = 1 + (i % max_size) + if rng.chance(1, 10) { rng.below(6) as usize } else { 0 };
@@ -246,7 +278,7 @@ fn main() {
             }
             if line != expected {
                 rt_mismatch += 1;
-                if rt_mismatch <= 40 {
+                if rt_mismatch <= 40 + n_corpus {
                     let (min, (msrc, mexp, mobs)) = shrink(&prog, style, &ops, (src.clone(), expected.clone(), line.clone()));
                     let key = format!("roundtrip:{}:{}", style.name(), ast::shape(&min));
                     writeln!(
@@ -279,6 +311,12 @@ fn main() {
             writeln!(f_lay, "{}", l).unwrap();
             writeln!(f_layc, "gen\t{}\t{}", style.name(), serde_json::to_string(&src).unwrap()).unwrap();
             n_lay += 1;
+            if let Some((m, e)) = real::model_lines(&src) {
+                writeln!(f_laym, "{}", m).unwrap();
+                writeln!(f_layme, "{}", e).unwrap();
+                writeln!(f_laymc, "gen\t{}\t{}", style.name(), serde_json::to_string(&src).unwrap()).unwrap();
+                n_laym += 1;
+            }
             if clean {
                 n_lay_clean += 1;
             }
@@ -288,7 +326,6 @@ fn main() {
     // ---- every .glu file of the repository (and corpus/C08) ----
     let repo = std::env::var("GLUON_REPO").unwrap_or_else(|_| "/repo".into());
     let mut files = glu_files(&repo);
-    let corpus_dir = concat!(env!("CARGO_MANIFEST_DIR"), "/../corpus/C08");
     files.extend(glu_files(corpus_dir));
     let mut n_files = 0u64;
     let mut n_files_parsed = 0u64;
@@ -325,6 +362,12 @@ fn main() {
             writeln!(f_lay, "{}", l).unwrap();
             writeln!(f_layc, "file\t{}", name).unwrap();
             n_lay += 1;
+            if let Ok(Some((m, e))) = std::panic::catch_unwind(|| real::model_lines(&src)) {
+                writeln!(f_laym, "{}", m).unwrap();
+                writeln!(f_layme, "{}", e).unwrap();
+                writeln!(f_laymc, "file\t{}", name).unwrap();
+                n_laym += 1;
+            }
             if clean {
                 n_lay_clean += 1;
             }
@@ -333,7 +376,7 @@ fn main() {
         }
     }
 
-    for f in [&mut f_exp, &mut f_impl, &mut f_cases, &mut f_fail, &mut f_span, &mut f_spanc, &mut f_lay, &mut f_layc] {
+    for f in [&mut f_laym, &mut f_layme, &mut f_laymc, &mut f_exp, &mut f_impl, &mut f_cases, &mut f_fail, &mut f_span, &mut f_spanc, &mut f_lay, &mut f_layc] {
         f.flush().unwrap();
     }
     if dump {
@@ -346,12 +389,14 @@ fn main() {
             "distinct_nontrivial": n_rt_nontrivial,
             "rule": "round trip: one case per (generated program, style); non-trivial = AST of at least 3 nodes, distinct by source text",
             "programs": n_programs,
+            "corpus_cases": n_corpus,
             "max_size": max_size,
             "rt_mismatch": rt_mismatch,
             "span_trees": n_span,
             "span_nodes": n_span_nodes,
             "span_leaves_checked": n_span_leaves,
             "layout_streams": n_lay,
+            "layout_model_streams": n_laym,
             "layout_streams_clean": n_lay_clean,
             "layout_virtual_tokens_generated": n_virtual,
             "glu_files": n_files,
